@@ -119,6 +119,20 @@ def check_via_ctor(model, rep):
                             if isinstance(f, ast.Attribute) and isinstance(f.value, ast.Call) and \
                                     isinstance(f.value.func, ast.Name) and f.value.func.id == 'super':
                                 return True
+                            if isinstance(f, ast.Name):
+                                # a local bound to a quantity class (possibly chosen by a conditional expression)
+                                def is_kind(e):
+                                    if isinstance(e, ast.Name):
+                                        return e.id in kinds
+                                    if isinstance(e, ast.IfExp):
+                                        return is_kind(e.body) and is_kind(e.orelse)
+                                    if isinstance(e, ast.Attribute) and e.attr == '__class__':
+                                        return True
+                                    return False
+                                binds = [a.value for a in walk_no_nested(m.node) if isinstance(a, ast.Assign)
+                                         and any(isinstance(t, ast.Name) and t.id == f.id for t in a.targets)]
+                                if binds and all(is_kind(b) for b in binds):
+                                    return True
                             return False
                         if isinstance(v, ast.Name) and v.id == 'self':
                             return m.name == 'to'
@@ -423,7 +437,8 @@ def check_params(model, rep, sx: SX):
         spec = SpecCtx(sx, 'DCMotor', env=env)
         gs = spec.guards('pwm <= 1 and pwm >= -1')
         ok = bool(done) and all(all(implies(o.state.guards, g) for g in gs) and
-                                any(e[0] == 'store' and e[2].endswith('__pwm') for e in o.state.effects) for o in done)
+                                any(e[0] == 'store' and e[2] == (sx.trivial_getter_field('DCMotor', 'pwm') or '_DCMotor__pwm')
+                                    for e in o.state.effects) for o in done)
         rep.decide(ok, 'C19.params', 'DCMotor.pwm[setter]', 'the duty-cycle setter can store a value outside [-1, 1]',
                    loc=st.loc)
     rep.require('C19.params', 18)
